@@ -73,6 +73,21 @@ Seeds == {<<68, 44, 32, 100, 32, 77, 32, 89>>, <<89, 45, 109, 45, 100, 32, 72, 5
           <<77, 32, 100, 44, 32, 121>>}
 DateCases == {[fam |-> "date", f |-> f, d |-> d] : f \in Fmts \cup Seeds, d \in {1136214245, 1709210096}}    \* 2006-01-02 15:04:05, 2024-02-29 12:34:56
 
+\* the same instant given as a time value, as an integer and as a decimal number of seconds (before and after 1970)
+\* must be formatted alike: the result is a function of the instant, never of the clock
+Instants == {1136214245, 1709210096, 86399, -1, -86400, -86401, -1000000000, 951782400}
+InstantFmts == Seeds \cup {<<89, 45, 109, 45, 100>>, <<72, 58, 105>>, <<108>>}
+DateIntCases == {[fam |-> "dateint", f |-> f, d |-> d] : f \in InstantFmts, d \in Instants}
+
+\* ---- an include's with-hash whose values read variables that are also keys of the hash (evaluated in the includer) ----
+sHome == <<72, 111, 109, 101>>
+IncWithCases == {[fam |-> "incwith", only |-> o, sbx |-> sb, n |-> n] : o \in BOOLEAN, sb \in BOOLEAN, n \in 2..4}
+IncWithHash(n) == Hash([i \in 1..n |-> LS(CASE i = 1 -> NT.h [] i = 2 -> NT.t [] i = 3 -> NT.u [] i = 4 -> NT.a)],
+                       [i \in 1..n |-> CASE i = 1 -> Var("t") [] i = 2 -> LS(<<68>>) [] i = 3 -> Bin("~", Var("h"), Var("t")) [] i = 4 -> Var("u")])
+IncWithTp(c) == ("main" :> <<Include(LS(NT.t1), IncWithHash(c.n), TRUE, c.only, FALSE, c.sbx), T(<<124>>), PrintS(Var("t"))>>)
+                @@ ("t1" :> <<T(<<91>>), PrintS(Var("h")), T(<<124>>), PrintS(Var("t")), T(<<124>>), PrintS(Var("u")), T(<<124>>), PrintS(Var("a")), T(<<93>>)>>)
+IncWithCtx == ("t" :> VS(sHome)) @@ ("h" :> VS(<<111>>)) @@ ("u" :> VS(<<117>>))
+
 \* ---- values that carry memory addresses ----------------------------------------------------------------
 AddrCases == {[fam |-> "addr", kind |-> k, prog |-> pr] : k \in {"ptrstruct", "ptrptr", "func", "chan", "privptr"},
                  pr \in {"print", "concat", "join", "default", "length"}}
@@ -96,6 +111,23 @@ CaseOf(c) ==
             tags |-> {"fam:date", "len:" \o ToString(Len(c.f))},
             ctx |-> ("d" :> [t |-> "time", i |-> c.d]),
             runs |-> Runs(("main" :> Source(<<PrintS(Filt("date", Var("d"), <<LS(c.f)>>))>>, LMin))), expect |-> NoExpect]
+      [] c.fam = "dateint" ->
+           [prop |-> "C03", key |-> ToJson(c), entry |-> "main", rel |-> "same",
+            tags |-> {"fam:dateint"} \cup (IF c.d < 0 THEN {"before1970"} ELSE {}),
+            ctx |-> ("d" :> [t |-> "time", i |-> c.d]),
+            runs |-> LET tp == ("main" :> Source(<<PrintS(Filt("date", Var("d"), <<LS(c.f)>>))>>, LMin)) IN
+                     <<[label |-> "time", tp |-> tp, xcalls |-> [id \in {} |-> 0], repeat |-> 2],
+                       [label |-> "int", tp |-> tp, xcalls |-> [id \in {} |-> 0], repeat |-> 2, ctx |-> ("d" :> VI(c.d))],
+                       [label |-> "decimal", tp |-> tp, xcalls |-> [id \in {} |-> 0], repeat |-> 2, ctx |-> ("d" :> VD(c.d, 0))],
+                       [label |-> "int64", tp |-> tp, xcalls |-> [id \in {} |-> 0], repeat |-> 2, ctx |-> ("d" :> VN(VI(c.d), "i64"))]>>,
+            expect |-> NoExpect]
+      [] c.fam = "incwith" ->
+           LET ref == Render(MkW(IncWithTp(c), {}, {}, NoFault), "main", IncWithCtx) IN
+           [prop |-> "C03", key |-> ToJson(c), entry |-> "main", rel |-> "same",
+            tags |-> {"fam:incwith", "order-sensitive"} \cup (IF c.sbx THEN {"sandboxed"} ELSE {}) \cup (IF c.only THEN {"only"} ELSE {}),
+            ctx |-> IncWithCtx, cfg |-> [sandbox |-> TRUE, allowf |-> {}, allowfn |-> {}],
+            runs |-> Runs(Sources(IncWithTp(c), LMin)),
+            expect |-> [ok |-> ref.ok, out |-> ref.out, err |-> ref.err, calls |-> [id \in {} |-> 0]]]
       [] c.fam = "addr" ->
            [prop |-> "C03", key |-> ToJson(c), entry |-> "main", rel |-> "same",
             tags |-> {"fam:addr", "kind:" \o c.kind, "prog:" \o c.prog},
@@ -103,10 +135,11 @@ CaseOf(c) ==
             runs |-> Runs(("main" :> Source(AddrProg(c.prog), LMin))),
             expect |-> NoExpect]
 
-Parts == {"map", "date", "addr"}
+Parts == {"map", "date", "addr", "dateint", "incwith"}
 Init == cs \in {[part |-> p] : p \in Parts}
 Next == "part" \in DOMAIN cs /\ cs' \in (CASE cs.part = "map" -> {c \in MapCases : Applicable(c.p, c.m)}
-                                            [] cs.part = "date" -> DateCases [] cs.part = "addr" -> AddrCases)
+                                            [] cs.part = "date" -> DateCases [] cs.part = "addr" -> AddrCases
+                                            [] cs.part = "dateint" -> DateIntCases [] cs.part = "incwith" -> IncWithCases)
 Spec == Init /\ [][Next]_cs
 IsCase == "fam" \in DOMAIN cs
 Emit == IsCase => PrintT(ToJson(CaseOf(cs)))
